@@ -595,7 +595,10 @@ func (ex *Exec) appendBuiltin(st *State, fr *Frame, c *ssa.Call, dst, src Value,
 		q.parent = base
 		q.parentLen = d.Len
 		if base.allWF != nil {
-			q.allWF = Ite(ULt(base.allWF, d.Len), base.allWF, d.Len)
+			q.allWF = map[string]*Term{}
+			for pn, hi := range base.allWF {
+				q.allWF[pn] = Ite(ULt(hi, d.Len), hi, d.Len)
+			}
 		}
 	}
 	// appended elements
